@@ -19,19 +19,19 @@ CLAIMS = {
          "Assumes non-module callees other than the listed sources are deterministic functions of their arguments; CHA soundness.",
          "DESIGN.md §4 C14"),
  "C03": ("value provenance of I/O offsets and receivers (additive decomposition, backend.Sub wrapping) + dominance of bounds tests",
-         "Decides structural necessary conditions of range confinement: each of the ~100 device ReadAt/WriteAt sites of the six filesystem packages is start-relative (start added exactly once across phis, helpers and callers, or receiver wrapped by backend.Sub with the raw backend only on the start==0 edge); MBR entry-area writes are confined to [446,512) and GPT region offsets depend on table geometry only; the partition stream's size test dominates its WriteAt and the offset is start+running total; SubStorage forwards offset+own offset; Finalize of iso9660/squashfs must consult the range size (today it does not: two known findings). Breaking any of these breaks the behaviour for some input; holding them does not establish it (FAT32 cluster-count overrun and ext4 allocator bounds are arithmetic and not covered).",
+         "Decides structural necessary conditions of range confinement: each of the ~100 device ReadAt/WriteAt sites of the six filesystem packages is start-relative (start added exactly once across phis, helpers and callers, or receiver wrapped by backend.Sub with the raw backend only on the start==0 edge); MBR entry-area writes are confined to [446,512) and GPT region offsets depend on table geometry only; the partition stream's size test dominates its WriteAt and the offset is start+running total; SubStorage forwards offset+own offset; Finalize of iso9660/squashfs must consult the range size (squashfs does not: one known finding; iso9660 was repaired). Breaking any of these breaks the behaviour for some input; holding them does not establish it (FAT32 cluster-count overrun and ext4 allocator bounds are arithmetic and not covered).",
          "go/ssa provenance is field-based and flow-insensitive across functions; host (workspace) files are told from the device by provenance (os.Open* vs backend values).",
          "DESIGN.md §4 C03"),
  "C13": ("type-width check on the def-use chains of Start/Size/End + dominance of size tests + provenance of slice bounds",
-         "Decides structural necessary conditions for both part.Partition implementations: no sub-64-bit multiply/add/shift or narrowing on values derived from Start/Size/End in WriteContents/ReadContents/GetStart/GetSize; the size test dominates the device write and success requires total == size; the bytes handed to the output writer are clamped by the remaining size (or chunk and sector size are the same constant); verifyBlockCopy turns digest inequality into an error and CopyPartitionRaw propagates read/write/verify errors. Does not decide which bytes are moved.",
+         "Decides structural necessary conditions for both part.Partition implementations: no sub-64-bit multiply/add/shift or narrowing on values derived from Start/Size/End in WriteContents/ReadContents/GetStart/GetSize; the size test dominates the device write and success requires total == size; the bytes handed to the output writer are clamped by the remaining size (or chunk and sector size are the same constant); every chunk read from the source is handled and the caller's reader is passed through unwrapped; verifyBlockCopy turns digest inequality into an error, covers the whole expected size (no floor division without the remainder) and CopyPartitionRaw propagates read/write/verify errors. Does not decide which bytes are moved.",
          "Path-insensitive; the mbr clamp exemption relies on deep provenance showing chunk length and sector multiplier are the same constant.",
          "DESIGN.md §4 C13"),
  "C10": ("SSA analysis of the whence switch, dominance of closed/negative guards, per-addend provenance (data + selecting-condition dependence) of the returned count",
-         "Decides structural necessary conditions for all four filesystem.File implementations, cross-checked as siblings: Seek arms are offset / cursor+offset / size+offset with no subtraction; a negative target is rejected before the cursor store; Close stores a sentinel that Read and Seek test before any other field access; every addend of Read's returned count and every placement into the caller's buffer depends on both size and cursor (so it cannot exceed what remains by construction of a min/clamp); io.EOF is selected by a size/cursor comparison and the cursor advances by the count's addends. Does not decide which bytes are returned.",
+         "Decides structural necessary conditions for all four filesystem.File implementations, cross-checked as siblings: Seek arms are offset / cursor+offset / size+offset with no subtraction; a negative target is rejected before the cursor store; Close stores a sentinel that Read and Seek test before any other field access; every addend of Read's returned count and every placement into the caller's buffer depends on both size and cursor (so it cannot exceed what remains by construction of a min/clamp); io.EOF is selected by a size/cursor comparison and the cursor advances by the count's addends; in ext4's extent loops the device offset of each transfer depends on the advancing cursor. Does not decide which bytes are returned.",
          "Dependence is data flow plus the conditions selecting phi values; a clamp that is present but arithmetically wrong (e.g. off by one) is not seen.",
          "DESIGN.md §4 C10"),
  "C01": ("typestate over go/ssa CFG with callee summaries (dirty directory => write-back), provenance of released chain heads, never-after on the out-of-space return",
-         "Decides structural necessary conditions of the FAT reference-model property: Remove/Rename-over/O_TRUNC hand the dropped entry's first cluster to a function that marks clusters unused; in all exported FAT FileSystem/File mutators every change of a directory's entry list or of an existing entry's fields is followed on every success path by the write of that same directory; the allocator's out-of-space return precedes any FAT mutation. Does not decide equality of listings/contents with a reference model, name aliasing or cluster arithmetic.",
+         "Decides structural necessary conditions of the FAT reference-model property: Remove/Rename-over/O_TRUNC hand the dropped entry's first cluster to a function that marks clusters unused; in all exported FAT FileSystem/File mutators every change of a directory's entry list or of an existing entry's fields is followed on every success path by the write of that same directory; the allocator's out-of-space return precedes any FAT mutation; the allocator's free-cluster scan starts at a constant or at a hint that every cluster-releasing function rewinds; writeDirectoryEntries writes every cluster of the directory's chain. Does not decide equality of listings/contents with a reference model, name aliasing or cluster arithmetic.",
          "Path-insensitive; directory identity is by SSA value within a function with one level of helper parameters.",
          "DESIGN.md §4 C01"),
  "C08": ("typestate over go/ssa CFG (FAT dirty => WriteFat, link => end-of-chain), SSA value identity of mirrored buffers, store/dominance checks for hooks, encoder/decoder layout agreement",
@@ -39,11 +39,11 @@ CLAIMS = {
          "Path-insensitive; mirror sites are recognised by 'secondary'/'backup' in the field or accessor the offset derives from.",
          "DESIGN.md §4 C08"),
  "C12": ("dominance/edge analysis of probe results, reachability of signature comparisons with error propagation, interval extraction of cluster-count thresholds",
-         "Decides structural necessary conditions of recognition: GPT before MBR with each table returned on its own nil-error edge; GetFilesystem probes every FileSystem implementer and returns a probe's result exactly (and at once) on its nil-error edge, otherwise an error; the readers of fat12/fat32/iso9660/squashfs/ext4 compare decoded bytes with the format signature, reject on mismatch and the rejection is propagated to Read; FAT12/FAT16 Create and Read accept the same, adjacent, disjoint cluster-count intervals (4085, 65525). fat16.Read has no signature test today and is exempted with that reason. Does not decide label/content round trips.",
+         "Decides structural necessary conditions of recognition: GPT before MBR with each table returned on its own nil-error edge; GetFilesystem probes every FileSystem implementer and returns a probe's result exactly (and at once) on its nil-error edge, otherwise an error; the readers of fat12/fat32/iso9660/squashfs/ext4 compare decoded bytes with the format signature, reject on mismatch and the rejection is propagated to Read; FAT12/FAT16 Create and Read accept the same, adjacent, disjoint cluster-count intervals (4085, 65525) and round the cluster count the same way; no rejection in the six readers depends on the start offset. fat16.Read has no signature test today and is exempted with that reason. Does not decide label/content round trips.",
          "Signature constants are specification facts held in the checker. Path-insensitive.",
          "DESIGN.md §4 C12"),
  "C16": ("error-flow check per call site + condition-to-error-return checks on the compare closures + SSA identity of copied buffers",
-         "Decides structural necessary conditions in package sync: no error from the source, destination, opened files or io.* is dropped in the copy (Chtimes/Close are the listed best-effort exceptions); each difference kind (missing path, kind, size, content, extra path, read-count, byte mismatch) controls an error return; copy and both compare walks consult the same exclusion table; directories are created and recursed into, files copied from the very bytes read, short writes are errors. Does not decide tree equality at run time.",
+         "Decides structural necessary conditions in package sync: no error from the source, destination, opened files or io.* is dropped in the copy (Chtimes/Close are the listed best-effort exceptions); each difference kind (missing path, kind, size, content, extra path, read-count, byte mismatch) controls an error return; copy and both compare walks consult the same exclusion table (also through helpers), index it by the entry's own name only and never use it other than by exact lookup; bytes delivered together with io.EOF are written before the copy can succeed; directories are created and recursed into, files copied from the very bytes read, short writes are errors. Does not decide tree equality at run time.",
          "Path-insensitive; recognises the package's current idioms (fs.WalkDir closures, bytes.Equal on [0:n) windows).",
          "DESIGN.md §4 C16"),
  "C17": ("lockset dataflow (entry locksets of helpers by intersection over call sites), lock-order and reachability analysis of fetch closures, freshness analysis of stores in reader-reachable functions",
@@ -51,11 +51,11 @@ CLAIMS = {
          "Assumes the backend's ReadAt and third-party decompressors are safe for concurrent use; freshness is decided per allocation site (no pointer analysis).",
          "DESIGN.md §4 C17"),
  "C15": ("taint of device-derived values (go/ssa, field-based, interprocedural) x dominating-comparison guards x type width, plus CRC must-pass-through",
-         "Decides structural necessary conditions over the 26 functions reachable from partition.Read: every success return of the CRC-computing readers lies behind the CRC equality edge over the decoded bytes; every device-derived value reaching a make length, divisor, slice bound, index or the step of a slice-shrinking loop is bounded by a dominating comparison (directly, through its operands, through the validation at the store of the field it is loaded from, or - for lengths only - by a type of at most 16 bits). Loop counters compared with a device-derived bound inherit its taint. Does not prove termination or panic-freedom in general: untainted indices and arithmetic overflow inside guarded ranges are out of scope.",
+         "Decides structural necessary conditions over the 26 functions reachable from partition.Read: every success return of the CRC-computing readers lies behind the CRC equality edge over the decoded bytes; every device-derived value reaching a make length, divisor, slice bound, index or the step of a slice-shrinking loop is bounded by a dominating comparison (directly, through its operands, through the validation at the store of the field it is loaded from, or - for lengths only - by a type of at most 16 bits). Loop counters compared with a device-derived bound inherit its taint. A loop whose every exit depends on a device read cannot return to that read after an error without progress. Does not prove termination or panic-freedom in general: untainted indices and arithmetic overflow inside guarded ranges are out of scope.",
          "Taint is flow-insensitive across functions and field-based; a guard is a comparison with an untainted value or len() on the bounding edge - whether the constant is small enough is not judged.",
          "DESIGN.md §4 C15"),
  "C18": ("taint of device-derived values x dominating guards x value-range width, over the ~450 functions reachable (with constant folding of read-only flags) from the six readers; checksum-verified decoders are not taint sources under the property's single-field corruption model",
-         "Decides structural necessary conditions: a device-derived make length whose range exceeds 16 MiB is bounded by a dominating comparison (on it, on a value computed from it, on its operands, at the store of the field it is loaded from, or by a validator call); every device-derived divisor is proven non-zero; slice-shrinking loop steps are proven positive; FAT cluster-chain walks carry a link-count bound. Nine allocation sites (iso9660 x6, fat32, squashfs, ext4) violate the rule today and are listed as known findings with the corrupted field that triggers each; five defects were repaired. Slice/index panics, decompression bombs and time bounds are not covered.",
+         "Decides structural necessary conditions: a device-derived make length whose range exceeds 16 MiB is bounded by a dominating comparison (on it, on a value computed from it, on its operands, at the store of the field it is loaded from, or by a validator call); every device-derived divisor is proven non-zero; slice-shrinking loop steps are proven positive; FAT cluster-chain walks carry a link-count bound; read loops whose only exits depend on the read cannot retry forever; library allocators (slices.Grow, bytes.Repeat, ...) are allocation sinks. Five allocation sites (iso9660 x4, squashfs) violate the rule today and are listed as known findings with the corrupted field that triggers each; nine defects were repaired. Slice/index panics, decompression bombs and time bounds are not covered.",
          "Whether a bounding constant is small enough is not judged (only that a bound exists); taint is field-based and flow-insensitive across functions.",
          "DESIGN.md §4 C18"),
  "C02": ("byte-layout extraction (abstract interpretation of encoder/decoder over go/ssa: field x significance x mask per byte) + ordering of CRC computation against stores + width check on geometry conversions",
